@@ -204,7 +204,8 @@ def total_cases(rng, tier):
     cases = []
 
     def add(kind, b, stream):
-        cases.append(Case("%s p %s" % (kind, B(b)), "%s-%s" % (kind, stream)))
+        # mode q = mode p + the largest single allocation request made during the parse (counting allocator of the harness)
+        cases.append(Case("%s q %s" % (kind, B(b)), "%s-%s" % (kind, stream)))
 
     # hand-made edge cases
     for kind in KINDS:
@@ -266,6 +267,12 @@ def total_oracle(case, impl_out, profile):
     is re-serialized by the harness, which must not panic either (a serialization error is an Err, hence allowed)"""
     if impl_out in BAD or impl_out.startswith("UNKNOWN"):
         return "%s build: %s" % (profile, impl_out)
+    if " maxalloc=" in impl_out:
+        # "no single buffer larger than a small constant multiple of the input is ever requested on the strength of such a field"
+        impl_out, mxs = impl_out.rsplit(" maxalloc=", 1)
+        n = len(unB(case.line.split(" ")[2]))
+        if int(mxs) > 64 * n + 4096:
+            return "%s build: a single allocation request of %s bytes for an input of %d bytes" % (profile, mxs, n)
     out = impl_out[4:] if impl_out.startswith("amb ") else impl_out
     if out == "re=err":
         return None
@@ -310,6 +317,8 @@ def _split_value(out):
 
 
 def total_agree(case, impl_out, model_out, profile):
+    if " maxalloc=" in impl_out:
+        impl_out = impl_out.rsplit(" maxalloc=", 1)[0]
     if impl_out == model_out:
         return True
     if impl_out.startswith("amb ") and model_out.startswith("amb "):
@@ -341,12 +350,12 @@ def total_nontrivial(case, impl_out):
 
 def total_shrink(case):
     toks = case.line.split(" ")
-    if len(toks) != 3 or toks[1] != "p":
+    if len(toks) != 3 or toks[1] not in ("p", "q"):
         return
     f = unB(toks[2])
     for cut in (len(f) // 2, len(f) - 4, len(f) - 1):
         if 0 <= cut < len(f):
-            yield Case("%s p %s" % (toks[0], B(f[:cut])), case.stream)
+            yield Case("%s %s %s" % (toks[0], toks[1], B(f[:cut])), case.stream)
     p = R.parse_archive(f)
     if p is not None and len(p.data) >= 4:
         # drop the last word of the data region, keep the tables
@@ -358,7 +367,7 @@ def total_shrink(case):
         raw = bytearray(d)
         for c in strings:
             raw[c:c + 4] = bytes(4)
-        yield Case("%s p %s" % (toks[0], B(R.write_archive(bytes(raw), strings, labels))), case.stream)
+        yield Case("%s %s %s" % (toks[0], toks[1], B(R.write_archive(bytes(raw), strings, labels))), case.stream)
 
 
 # ----------------------------------------------------------------------------- self test
